@@ -114,6 +114,9 @@ func clauseSummary(f *xlib.File, body []ast.Stmt) string {
 				if x.Tok == token.FALLTHROUGH {
 					feats["fallthrough"] = true
 				}
+				if x.Tok == token.CONTINUE && x.Label == nil {
+					feats["continue"] = true
+				}
 			}
 			return true
 		})
@@ -138,7 +141,7 @@ func endsControl(body []ast.Stmt, failName string) bool {
 	case *ast.ReturnStmt:
 		return true
 	case *ast.BranchStmt:
-		return x.Tok == token.FALLTHROUGH
+		return x.Tok == token.FALLTHROUGH || (x.Tok == token.CONTINUE && x.Label == nil)
 	case *ast.ExprStmt:
 		if c, ok := x.X.(*ast.CallExpr); ok {
 			return callName(c) == failName
@@ -301,7 +304,18 @@ func main() {
 	// nextToken's switch
 	nt := lx.Func("lex.nextToken")
 	var sw *ast.SwitchStmt
-	for _, st := range nt.Body.List {
+	// either the switch is a top-level statement (skipped input is handled by `return l.nextToken()`), or the whole
+	// body is one unconditional `for { … }` (skipped input is handled by `continue`: every iteration redoes
+	// stripSpaces / pos / the pending-unindent test exactly as a fresh call did)
+	shape := "recursive"
+	stmts := nt.Body.List
+	if len(stmts) == 1 {
+		if fl, ok := stmts[0].(*ast.ForStmt); ok && fl.Init == nil && fl.Cond == nil && fl.Post == nil {
+			shape = "loop"
+			stmts = fl.Body.List
+		}
+	}
+	for _, st := range stmts {
 		if s, ok := st.(*ast.SwitchStmt); ok {
 			if sw != nil {
 				xlib.Unreadable("nextToken: more than one top-level switch")
@@ -309,6 +323,7 @@ func main() {
 			sw = s
 		}
 	}
+	out.Def("nextTokenShape", "String", xlib.LeanStr(shape))
 	if sw == nil {
 		xlib.Unreadable("nextToken: switch not found")
 	}
